@@ -21,6 +21,8 @@ CLAUSES = {
     "C09": ["C09_bag", "C09_props", "C09_extra"],
     "C10": ["R2_equal", "R2_exposed", "C01_settles"],
     "C11": ["C01_value", "R2_equal", "C11_range", "C01_settles"],
+    "C15": ["R2_equal", "R2_exposed", "C01_value", "C03_value", "C06_entity", "C06_condition", "C06_enable", "C09_bag", "C09_extra", "C01_settles"],
+    "C16": ["R2_equal", "R2_exposed", "C01_value", "C03_value", "C06_entity", "C06_condition", "C06_enable", "C09_bag", "C09_extra", "C01_settles"],
     "C20": ["C20_exposed", "C20_label", "C20_input", "C01_value", "C02_bag"],
 }
 
@@ -383,6 +385,40 @@ def c11(ctx):
     for p in sel:
         p["job_twin"] = {"src": p["src2"]}
     run_refine(ctx, sel, {"DomCap": 64}, item_fn=item, variants=[("", {}), ("#twin", {"__twin": True})], batch_size=60)
+
+
+def fl_check(ctx, prefix):
+    progs = [dict(p, grp=p["grp"][5:]) for p in with_ids(gen.generate("GenFL"), "fl") if p["grp"].startswith(prefix)]
+    ctx.cov["corpus_size"] = len(progs)
+    sel = progs
+    ctx.cov["exhaustive"] = True
+    ctx.assumptions = ASSUME_BASE + ["the twin program is computed by Facto!Unroll / Facto!Inline (syntactic substitution, locals renamed apart)"]
+
+    def item(p, rs):
+        it = twin_item(p, rs, dom=p["dom"])
+        if p.get("mode") == "hist":
+            it["mode"] = "hist"
+            it["vclause"] = "C03_value"
+        return it
+    run_refine(ctx, sel, {"DomCap": 300 if ctx.tier == "quick" else 3000}, item_fn=item, variants=[("", {}), ("#twin", {"__twin": True})], batch_size=6)
+
+
+@prop("C15")
+def c15(ctx):
+    ctx.cov["rule"] = ("programs = GenFL function families (Signal/int/Entity parameters, int<->Signal coercion, expression arguments, locals that "
+                       "shadow caller names, nested calls, conditional bodies, bodies that place entities or declare memory, calls in loops), each "
+                       "with its Inline twin; both builds judged against the interpreter (which gives every call its own instances) and compared "
+                       "in lock-step, over all valuations / all histories")
+    fl_check(ctx, "func:")
+
+
+@prop("C16")
+def c16(ctx):
+    ctx.cov["rule"] = ("programs = GenFL loop families (every (start, stop, step) of a small box incl. empty, descending and non-dividing ranges, "
+                       "list iterators, nested and triangular loops, int-variable bounds, body-local ints/signals/shadowing/calls/memory), each "
+                       "with its Unroll twin; entity conditions, placed entities and exported values of both builds judged against the "
+                       "interpreter and compared in lock-step")
+    fl_check(ctx, "loop:")
 
 
 @prop("C20")
